@@ -137,7 +137,8 @@ class Code15(Code13):
 
     def freeze(self):
         for field in "co_consts co_names co_varnames co_freevars co_cellvars".split():
-            val = getattr(self, field)
+            # Code objects before Python 2.1 have no free or cell variables.
+            val = getattr(self, field, None)
             if isinstance(val, list):
                 setattr(self, field, tuple(val))
 
